@@ -47,19 +47,22 @@ Proof.
 Qed.
 
 (* a keyed object that was outside the identity map when the frame began is outside it now *)
+(* an attached object that was outside the identity map when the frame began (deleted state) is outside it now *)
 Lemma Rel_notin : forall g f ob n sn sd W o, GClean g -> Good ob n W sn sd -> Rel g f ob n sn sd W ->
-  o < gn g -> okey (gobjs g o) <> None -> oin (gobjs g o) = false -> oin (ob o) = false.
+  o < gn g -> oatt (gobjs g o) = true -> oin (gobjs g o) = false -> oin (ob o) = false.
 Proof.
   intros g f ob n sn sd W o [GG _] G R Ho Hk Hi.
   destruct (oin (ob o)) eqn:E; auto. exfalso.
   destruct (expunged f sn o) eqn:Ee.
   - destruct (r_exp _ _ _ _ _ _ _ R o Ho Ee). congruence.
-  - destruct (r_id _ _ _ _ _ _ _ R o Ho Ee) as [A [B C]].
-    destruct (g_in _ _ _ _ _ G o E) as [_ [Ha [Hd _]]].
+  - destruct (r_id _ _ _ _ _ _ _ R o Ho Ee) as [A B].
+    destruct (g_in _ _ _ _ _ G o E) as [_ [Ha [Hd Hkk]]].
+    destruct (B Hk) as [B1 C].
     assert (Hd' : odelf (gobjs g o) = false).
     { rewrite <- C. unfold pdelf. destruct (_ || _); auto. }
-    destruct (okey (gobjs g o)) as [k|] eqn:Ek; [|congruence].
-    rewrite (g_pers _ _ _ _ _ GG o k Ho Ek) in Hi; congruence.
+    destruct (okey (gobjs g o)) as [k|] eqn:Ek.
+    + rewrite (g_pers _ _ _ _ _ GG o k Ho Ek) in Hi; congruence.
+    + assert (In o []); [|auto]. apply (g_new _ _ _ _ _ GG). auto.
 Qed.
 
 Lemma Rel_upd : forall g f ob n sn sd W o x, GClean g -> Good ob n W sn sd -> Rel g f ob n sn sd W ->
@@ -72,10 +75,10 @@ Proof.
                           odelf (updN ob o x o') = odelf (ob o') /\ oin (updN ob o x o') = oin (ob o'))).
   { intros o'. unfold updN. destruct (Nat.eqb_spec o' o); subst; auto. }
   pose proof R as R0.
-  destruct R as [r_n0 r_exp0 r_id0 r_fresh0 r_row0 r_delv0 r_ks0 r_del0 r_lists0 r_keep0]. constructor; auto.
-  - intros o' Ho He. destruct (r_id0 o' Ho He) as [A [B C]]. destruct (U o') as [A1 [B1 [C1 D1]]].
+  destruct R as [r_n0 r_exp0 r_id0 r_fresh0 r_row0 r_delv0 r_ks0 r_del0 r_lists0 r_dirty0 r_keep0]. constructor; auto.
+  - intros o' Ho He. destruct (r_id0 o' Ho He) as [A B]. destruct (U o') as [A1 [B1 [C1 D1]]].
     unfold pkey, pdelf in *. rewrite A1, B1, C1. auto.
-  - intros o' H1 H2. destruct (U o') as [A1 [B1 _]]. rewrite A1, B1. auto.
+  - intros o' H1 H2. destruct (U o') as [A1 [B1 [C1 D1]]]. rewrite B1, D1. auto.
   - intros o' k v Ho He Hd Hdi Hm Hk Hw. unfold updN in *. destruct (Nat.eqb_spec o' o); [subst o'|eauto].
     destruct (r_del0 o Hd) as [_ [Hin _]].
     destruct Hv as [Hv|[Hv|[V1 [V2 V3]]]]; [congruence|congruence|].
